@@ -538,6 +538,31 @@ Definition run (s : state) (ops : list op) : state := fold_left (fun st o => fst
 Definition init_state (t0 : Z) (fund : Z -> Z -> Z) (allowed : list Z) : state :=
   mkState t0 (fun a dn => if a =? module_acc then 0 else fund a dn) [] 0 [] [] allowed.
 
+(* ---------------------------------------------------------------- genesis and maintenance entry points of lock.go *)
+(* setLockAndAddLockRefs *)
+Definition set_lock_and_add_lock_refs (s : state) (l : lock) : result state :=
+  add_lock_refs (set_lock s l) l.
+(* InitializeAllLocks: records and reference entries lock by lock, then one Increase per (denomination, duration) with the summed
+   amount - the same store as one Increase per lock *)
+Fixpoint initialize_all_locks (s : state) (ls : list lock) : result state :=
+  match ls with
+  | [] => Ok s
+  | l :: r => do s1 <- set_lock_and_add_lock_refs s l;
+              initialize_all_locks (inc_acc s1 (l_denom l) (l_dur l) (l_amt l)) r
+  end.
+(* genesis: bank balances (the module account holds the genesis locks' coins), keeper.InitGenesis = SetLastLockID + InitializeAllLocks *)
+Definition fund_module (b : Z -> Z -> Z) (ls : list lock) : Z -> Z -> Z :=
+  fold_left (fun b l => bal_add b module_acc (l_denom l) (l_amt l)) ls b.
+Definition genesis_state (t0 : Z) (fund : Z -> Z -> Z) (allowed : list Z) (last : Z) (ls : list lock) : result state :=
+  let s0 := init_state t0 fund allowed in
+  initialize_all_locks (set_last (set_bal s0 (fund_module (s_bal s0) ls)) last) ls.
+
+(* RebuildAccumulationStoreForDenom (upgrade handlers): clear the denomination's store, re-add every lock GetLocksDenom returns *)
+Definition rebuild_accumulation_store_for_denom (s : state) (dn : Z) : result state :=
+  do ls <- q_locks_denom s dn;
+  let acc0 := filter (fun e => negb (fst (fst e) =? dn)) (s_acc s) in
+  Ok (set_acc s (fold_left (fun acc l => acc_increase acc dn (acc_key (l_dur l)) (if l_denom l =? dn then l_amt l else 0)) ls acc0)).
+
 (* ---------------------------------------------------------------- definitional views used by the theorems *)
 Definition locked_sum (ls : list lock) (p : lock -> bool) : Z :=
   fold_right (fun l acc => (if p l then l_amt l else 0) + acc) 0 ls.
